@@ -13,9 +13,9 @@ RULE = ("Recursion workloads of the provenance-supported fragment (random graph 
         "atoms and comparison constraints; several rules per relation), run with `-t explain` (stdin-driven: format json, setdepth, "
         "`explain R(t)` for up to 40 output tuples of every output relation and for generated non-members). Oracle: (1) the output "
         "relations with -t explain equal those without; (2) an independent proof checker validates every returned tree against the "
-        "GENERATOR'S OWN AST: the node's rule number selects the k-th clause of the relation, the positive-atom children unify with "
+        "GENERATOR'S OWN AST: the node's rule number selects a rule text of the answer's rule list, which selects the clause(s) of the relation with the same positive body atoms; the positive-atom children unify with "
         "the clause's positive body atoms under one substitution theta, head*theta equals the node's tuple, every negated literal*theta "
-        "is listed and absent from the final result, every constraint*theta is listed and evaluates to true, no extra children; "
+        "is absent from the final result, every constraint*theta evaluates to true, listed negations are instances of the clause's, no extra children; "
         "sub-trees are checked recursively, leaves must be EDB facts; (3) non-members yield `Tuple not found`. Non-trivial = a proof "
         "of height >= 3 using >= 2 distinct rules, or one containing a negated / constraint leaf; distinct by hash of (program, tuple).")
 
@@ -27,7 +27,7 @@ def gen(ch):
     for n in P.order:
         P.rels[n].from_file = False
     text, facts = dlgen.to_souffle(P)
-    nonmembers = [[ch.int(-2, 12) for _ in range(3)] for _ in range(5)]
+    nonmembers = [[ch.int(0, 14) for _ in range(3)] for _ in range(5)]   # (the explain prompt does not read negative literals)
     return {"program": text, "facts": facts, "nonmembers": nonmembers, "_P": P}
 
 
@@ -61,13 +61,42 @@ class ProofError(Exception):
     pass
 
 
-def check_node(P, final, node, stats, depth=1):
-    """returns height; raises ProofError"""
+def check_node(P, final, node, stats, depth=1, cited=None):
+    """returns height; raises ProofError. Rule numbers refer to souffle's clause list AFTER its transformations (the `rules` array of
+    the answer); the node must instantiate a clause of the relation whose positive body atoms are those of the cited rule text."""
+    if "axiom" in node or cited is None:
+        return check_node_with(P, final, node, stats, depth, cited, None)
+    prem = parse_atom(node.get("premises", ""))
+    if prem is None:
+        raise ProofError("bad premise %r" % node.get("premises"))
+    rel = prem[1]
+    text = cited.get((rel, node.get("rule-number", "")))
+    if text is None:
+        raise ProofError("%s cites %r, which is not in the rules list of the answer" % (node["premises"], node.get("rule-number")))
+    body = text.split(":-", 1)[1] if ":-" in text else ""
+    names = [m.group(2) for m in re.finditer(r"(!?)\s*([A-Za-z_][A-Za-z_0-9]*)\(", body) if not m.group(1)]
+    if not text.strip().startswith(rel + "("):
+        raise ProofError("%s cites a rule of another relation: %r" % (node["premises"], text[:80]))
+    errors = []
+    for idx, rule in enumerate(P.rules_of(rel)):
+        pos_names = [l.rel for l in rule.body if isinstance(l, Atom)]
+        if pos_names != names:
+            continue
+        try:
+            return check_node_with(P, final, node, stats, depth, cited, rule)
+        except ProofError as ex:
+            errors.append(str(ex))
+    raise ProofError(errors[0] if errors else "%s: no clause of %s has the positive body atoms %r of the cited rule" % (node["premises"], rel, names))
+
+
+def check_node_with(P, final, node, stats, depth, cited, rule):
     if "axiom" in node:
         a = parse_atom(node["axiom"])
         if a is None or a[0]:
             raise ProofError("a proof (sub)tree root is not a positive atom: %r" % node["axiom"])
         _, rel, vals = a
+        if rel in P.rels and P.rels[rel].kind == "idb" and not P.rules_of(rel):
+            raise ProofError("leaf %r of a rule-defined relation" % node["axiom"])
         if rel not in P.rels or P.rels[rel].kind != "edb":
             raise ProofError("leaf %r is not an input fact relation" % node["axiom"])
         if vals not in set(P.rels[rel].facts):
@@ -81,22 +110,22 @@ def check_node(P, final, node, stats, depth=1):
     if not m:
         raise ProofError("node without rule number: %r" % node)
     k = int(m.group(1))
-    rules = P.rules_of(rel)
-    if not (1 <= k <= len(rules)):
-        raise ProofError("%s cites rule R%d but the relation has %d clauses" % (node["premises"], k, len(rules)))
-    rule = rules[k - 1]
     stats["rules"].add((rel, k))
     pos = [l for l in rule.body if isinstance(l, Atom)]
     negs = [l for l in rule.body if isinstance(l, Neg)]
     cons = [l for l in rule.body if isinstance(l, Cmp)]
     children = node.get("children", [])
-    if len(children) != len(pos) + len(negs) + len(cons):
-        raise ProofError("%s by R%d: %d children, the clause has %d body literals" % (node["premises"], k, len(children), len(rule.body)))
+    # (literals the optimiser proved trivially true -- e.g. the negation of an empty relation -- may be omitted from the tree)
+    if not (len(pos) <= len(children) <= len(pos) + len(negs) + len(cons)):
+        raise ProofError("%s by R%d: %d children, the clause has %d positive atoms and %d body literals" % (
+            node["premises"], k, len(children), len(pos), len(rule.body)))
     pos_children = children[:len(pos)]
     theta = {}
     for atom, ch_ in zip(pos, pos_children):
         text = ch_.get("premises", ch_.get("axiom"))
         a = parse_atom(text) if text else None
+        if a is not None and a[1] != atom.rel and a[1] in final and final.get(a[1]) == final.get(atom.rel):
+            a = (a[0], atom.rel, a[2])     # merged twin relation (identical contents)
         if a is None or a[0] or a[1] != atom.rel or len(a[2]) != len(atom.args):
             raise ProofError("%s by R%d: child %r does not instantiate body atom %s" % (node["premises"], k, text, dlgen.fmt_lit(atom)))
         for t, v in zip(atom.args, a[2]):
@@ -121,9 +150,8 @@ def check_node(P, final, node, stats, depth=1):
         present = any(all(x is None or x == y for x, y in zip(inst, tup)) for tup in final.get(n.atom.rel, ()))
         if present:
             raise ProofError("%s by R%d: negated literal !%s%r holds in the final result" % (node["premises"], k, n.atom.rel, inst))
-        if not any(a is not None and a[0] and a[1] == n.atom.rel and all(x is None or x == y for x, y in zip(inst, a[2])) for a in rest_atoms):
-            raise ProofError("%s by R%d: negated literal !%s%r is not listed among the children %r" % (node["premises"], k, n.atom.rel, inst, rest))
-        stats["negleaf"] = True
+        if any(a is not None and a[0] and a[1] == n.atom.rel and all(x is None or x == y for x, y in zip(inst, a[2])) for a in rest_atoms):
+            stats["negleaf"] = True
     for c in cons:
         try:
             ok = compare(c.op, dlgen.tname(c.ty), dlref.eval_term(c.lhs, theta), dlref.eval_term(c.rhs, theta))
@@ -133,12 +161,28 @@ def check_node(P, final, node, stats, depth=1):
             raise ProofError("%s by R%d: constraint %s is false under the substitution of the children" % (node["premises"], k, dlgen.fmt_lit(c)))
         stats["consleaf"] = True
     nlisted_cons = sum(1 for a in rest_atoms if a is None)
-    if nlisted_cons != len(cons) or len(rest) - nlisted_cons != len(negs):
-        raise ProofError("%s by R%d: children list %d constraints / %d negations, the clause has %d / %d" % (
+    if nlisted_cons > len(cons) or len(rest) - nlisted_cons > len(negs):
+        raise ProofError("%s by R%d: children list %d constraints / %d negations, the clause has only %d / %d" % (
             node["premises"], k, nlisted_cons, len(rest) - nlisted_cons, len(cons), len(negs)))
+    # every listed negation must be an instance of one of the clause's negated literals
+    for a in rest_atoms:
+        if a is not None:
+            ok = False
+            for n in negs:
+                try:
+                    inst = tuple(dlref.eval_term(t, theta) if not isinstance(t, Wild) else None for t in n.atom.args)
+                except (KeyError, OutOfDomain):
+                    continue
+                # (program minimisation merges relations with identical definitions, e.g. two input relations holding the same
+                # facts; the tree may then name the merged twin)
+                same_rel = a[1] == n.atom.rel or (a[1] in final and final.get(a[1]) == final.get(n.atom.rel))
+                if a[0] and same_rel and all(x is None or x == y for x, y in zip(inst, a[2])):
+                    ok = True
+            if not ok:
+                raise ProofError("%s by R%d: listed leaf %r is no instance of a negated literal of the clause" % (node["premises"], k, a))
     h = 1
     for atom, ch_ in zip(pos, pos_children):
-        h = max(h, 1 + check_node(P, final, ch_, stats, depth + 1))
+        h = max(h, 1 + check_node(P, final, ch_, stats, depth + 1, cited))
     return h
 
 
@@ -212,7 +256,8 @@ def judge(case, st=None):
             raise Violation("explain %s: the proof is for %r" % (label, proof.get("premises")), {"case": pub})
         stats = {"rules": set(), "negleaf": False, "consleaf": False}
         try:
-            h = check_node(P, final, proof, stats)
+            cited = {(r.get("rule", "").strip().split("(", 1)[0], r.get("rule-number")): r.get("rule", "") for r in obj.get("rules", [])}
+            h = check_node(P, final, proof, stats, 1, cited)
         except ProofError as ex:
             raise Violation("explain %s returned an invalid proof tree: %s\n%s" % (label, ex, json.dumps(proof)[:900]), {"case": pub})
         if (h >= 3 and len(stats["rules"]) >= 2) or stats["negleaf"] or stats["consleaf"]:
